@@ -414,10 +414,10 @@ pub(crate) fn format_expr(
             }
         }
         ast::ExprKind::Gen(capture_by, ref block, ref kind, _) => {
-            let mover = if matches!(capture_by, ast::CaptureBy::Value { .. }) {
-                "move "
-            } else {
-                ""
+            let mover = match capture_by {
+                ast::CaptureBy::Value { .. } => "move ",
+                ast::CaptureBy::Use { .. } => "use ",
+                ast::CaptureBy::Ref => "",
             };
             if let rw @ Ok(_) = rewrite_single_line_block(
                 context,
